@@ -43,7 +43,7 @@ CHECKS = {
             "assumptions": ["the k-th raw allocation to fail is drawn per run (k in 1..14, single / window / long outage), not enumerated per trace"]},
     "C19": {"scenarios": ["c19"], "quick_budget_s": 45, "thorough_budget_s": 600,
             "real": ["include/oneapi/tbb/collaborative_call_once.h, enumerable_thread_specific.h, combinable.h + scheduler (helpers joining the winner's nested parallelism)"]},
-    "C20": {"scenarios": ["c20", "c20b"], "quick_budget_s": 45, "thorough_budget_s": 600,
+    "C20": {"scenarios": ["c20", "c20b", "c20c"], "quick_budget_s": 45, "thorough_budget_s": 600,
             "real": ["src/tbb/task.cpp (suspend/resume), co_context.h with real ucontext coroutines (makecontext/swapcontext inside simulated threads), task_dispatcher resume paths, arena coroutine cache"]},
     "C08": {"scenarios": ["c08", "c08b", "c08c"], "quick_budget_s": 45, "thorough_budget_s": 600,
             "real": ["include/oneapi/tbb/{spin,queuing,}_mutex.h, {spin_rw,queuing_rw,rw}_mutex.h, src/tbb/queuing_rw_mutex.cpp, rtm_mutex.cpp, rtm_rw_mutex.cpp (fallback paths)"],
